@@ -497,7 +497,7 @@ def check_render(e, info, mode, case_class):
 
 
 # ------------------------------------------------------------------------------------------ ignore cases
-def produce_ignored(root, exc_name, msg):
+def produce_ignored(root, exc_name, msg, via_link=False):
     """keep/a.py:entry -> ignored/b.py:middle -> keep/a.py:leaf raises"""
     _COUNTER[0] += 1
     n = _COUNTER[0]
@@ -505,6 +505,12 @@ def produce_ignored(root, exc_name, msg):
     ign = os.path.join(root, "ignored_%d" % n)
     os.makedirs(keep)
     os.makedirs(ign)
+    if via_link:
+        # the ignored code is reached (and reported by Python) through a symbolic link to its directory: the pattern is
+        # written for the path as it is reported
+        link = os.path.join(root, "ignoredlink_%d" % n)
+        os.symlink(ign, link)
+        ign = link
     a_path = os.path.join(keep, "a_%d.py" % n)
     b_path = os.path.join(ign, "b_%d.py" % n)
     a_text = "def entry(middle, exc, msg):\n    return middle(leaf, exc, msg)\n\n\ndef leaf(exc, msg):\n    raise exc(msg)\n"
@@ -742,13 +748,13 @@ def _bounded(ctx, rng, quick, root):
     ctx.done(exhaustive=True)
 
     # ------------------------------------------------------------ ignore patterns
-    ctx.check("ignore", "a 3-frame stack keep/a.py -> ignored/b.py -> keep/a.py x ignore pattern {the ignored dir, its parent-anchored regex, a pattern matching "
+    ctx.check("ignore", "a 3-frame stack keep/a.py -> ignored/b.py -> keep/a.py x ignore pattern {the ignored dir, the ignored dir reached through a symbolic link, its parent-anchored regex, a pattern matching "
                         "nothing} x verbosity {0,1,2,4} x UTF-8 on/off: ignored frame shown iff debug; render succeeds; content; snippet")
     fail = _Failer(ctx)
-    for pat_kind in ("dir", "regex", "nothing"):
+    for pat_kind in ("dir", "linked-dir", "regex", "nothing"):
         for msg in (MESSAGES[0], MESSAGES[7]):
-            e, info, ign_dir, marker = produce_ignored(root, "GenError", msg)
-            if pat_kind == "dir":
+            e, info, ign_dir, marker = produce_ignored(root, "GenError", msg, via_link=(pat_kind == "linked-dir"))
+            if pat_kind in ("dir", "linked-dir"):
                 pattern = re.escape(ign_dir)
             elif pat_kind == "regex":
                 pattern = r"^.*/ignored_\d+/b_\d+\.py$"
@@ -806,9 +812,9 @@ def replay_bounded(check_id, failure):
                 p = os.path.join(os.environ.get("CLIKIT_REPO", "/repo"), "src", p)
             got = check_highlighter_file(p)[0]
         elif check_id.endswith(".ignore"):
-            e, info, ign_dir, marker = produce_ignored(root, "GenError", w["msg"])
+            e, info, ign_dir, marker = produce_ignored(root, "GenError", w["msg"], via_link=(w["ignore_case"] == "linked-dir"))
             kind = w["ignore_case"]
-            pattern = {"dir": re.escape(ign_dir), "regex": r"^.*/ignored_\d+/b_\d+\.py$"}.get(kind, re.escape(os.path.join(root, "no-such-dir")))
+            pattern = {"dir": re.escape(ign_dir), "linked-dir": re.escape(ign_dir), "regex": r"^.*/ignored_\d+/b_\d+\.py$"}.get(kind, re.escape(os.path.join(root, "no-such-dir")))
             mode = dict(w["mode"], ignore=pattern, ignored_marker=marker if kind != "nothing" else None)
             got = check_render(e, info, mode, "sourced")
             if kind == "nothing" and marker not in ANSI_RE.sub("", _render_plain(e, mode)) and mode["verbosity"] in (1, 2):
